@@ -34,7 +34,8 @@ fn applicability(cfg: &Cfg, t: usize, den_zero: bool, cond: f64) -> Result<f64, 
         }
         return Ok((100.0 * tau(t) * cond).max(SLACK));
     }
-    Ok(SLACK * range_of(cfg.kind).1)
+    // "up to 1e-9 of rounding slack": absolute, on the output's own scale
+    Ok(SLACK)
 }
 
 fn judge(cfg: &Cfg, ops: &[Op], last: &Out, t: usize, den_zero: bool, cond: f64, out: &mut JobOut) {
@@ -296,7 +297,7 @@ pub fn run(ctx: &Ctx) -> CheckResult {
         });
         res.absorb(merge_jobs(outs));
     }
-    res.rule = "case = (configuration, history); the real output is required to lie in [0,100] ([0,1] for ER) with 1e-9 relative slack (MFI: 100*tau(t)*c, applied when c<=1000) at every step whose reference denominator is non-zero; non-trivial = output at or within 1e-6 of a range boundary".into();
+    res.rule = "case = (configuration, history); the real output is required to lie in [0,100] ([0,1] for ER) with 1e-9 absolute slack (MFI: 100*tau(t)*c, applied when c<=1000) at every step whose reference denominator is non-zero; non-trivial = output at or within 1e-6 of a range boundary".into();
     res.bounds = format!("seq(S_pos+reset,{d}), seq(S_int,{}) and seq(S_wide={{1,3,1e9,1e17,1e-9}}, same depth) for RSI/FAST_STOCH/ER, seq(B_grid+reset,{db}) FAST_STOCH, seq(B_vol,{dv}) and seq(B_mfi+reset,7/9) MFI, SLOW_STOCH (n x {{1,2,3}}) at reduced depth, periods 1..5; macro-step runs: all 8^3 orderings of {{up,down,tick,osc,gap,flat,outlier(1e9x),stair}} segments, scalar and bar paths, volumes spanning 1e-3..1e9", d - 1);
     res.assumptions = vec!["RSI denominators below 1e-280 (fully decayed averages) count as zero: such windows are C08's subject".into()];
     res
